@@ -898,7 +898,9 @@ class FnAnalysis:
                 elif isinstance(n.target, ast.Name):
                     if n.target.id in self.globals_declared:
                         continue
-                    if self.name(n.target.id).kind != "scalar":
+                    # `x op= v` on a local name either rebinds it or updates the object in place; only worth
+                    # a row when that object may be somebody else's
+                    if self.name(n.target.id).kind not in ("scalar", "fresh"):
                         add(n, "aug_name", n.target)
             elif isinstance(n, ast.Delete):
                 for t in n.targets:
